@@ -9,7 +9,7 @@ CHECKS = {
              "for 8 codes (quick) / all 254 codes (thorough), (b) seeded random packets over the C01 domain (0..12 options, values 0..4096 B, "
              "nil/4-byte/16-byte IPs, hlen 0..16, names without NUL). Shape = (hlen, name length classes, multiset of (code class, value length "
              "class {0,1-254,255,256-509,510,511+}), 16-byte IP used); non-trivial iff some option is empty or >255 bytes, or hlen != 6, or a 16-byte IP form is used.",
-        technique="generated round-trip executions of the real encoder/decoder checked online against the generator's own record (reference-model monitor)",
+        technique="generated round-trip executions of the real encoder/decoder checked online against the generator's own record (reference-model monitor); decoded results are overwritten after judging (shared decoder state shows in later cases) with canaries on process-wide values",
         level_text="Every generated packet is encoded and decoded by the real library and compared field by field with the value the generator "
                    "recorded (not with the library's own view). Split boundaries are enumerated exhaustively per code; the rest is sampled. Held on the executions observed, not a proof.",
         level_note="Trusts the harness generator's record of the packet and Go's reflect-free projection of the public struct fields.",
@@ -24,7 +24,7 @@ CHECKS = {
              "(b) every truncation point of generated valid packets, (c) all 256 values of every length octet, every cookie octet and hlen of generated packets, "
              "(d) generated non-canonical packets (unsorted, split, padded, trailing bytes) and structure-aware mutants of them. Shape = reject reason, or the sequence of "
              "(code class, length class) + pads + trailing-bytes flag + hlen; non-trivial iff the options area has >= 2 elements or the case is a reject other than a short header.",
-        technique="differential monitor: real dhcpv4.FromBytes vs an independent RFC 2131/2132/3396 reference decoder (accept/reject agreement + value equality), exhaustive small scope + mutation",
+        technique="differential monitor: real dhcpv4.FromBytes vs an independent RFC 2131/2132/3396 reference decoder (accept/reject agreement + value equality), exhaustive small scope + mutation; decoded results are overwritten after judging, canaries on process-wide values",
         level_text="Accept/reject and every decoded field of the real decoder are compared with an independently written reference decoder on an exhaustively enumerated small scope "
                    "(all option areas over an 8-symbol alphabet up to a fixed length), on every truncation/length/cookie perturbation of generated packets and on random mutants.",
         level_note="Trusts harness/ref4 (independent reference decoder, ~100 lines, itself cross-checked against the wire generator's expectation on every generated packet).",
@@ -37,7 +37,7 @@ CHECKS = {
         rule="(a) generated packets of the C01 domain, each encoded 4 times (Go randomises map iteration per call); (b) option sets of 2..6 options: ALL permutations of the same updates "
              "(UpdateOption / WithGeneric modifier / add-delete-re-add styles interleaved), 7..12 options: 200 sampled orders. Shape = sorted code classes + split pattern (+ permutation size); "
              "non-trivial iff >= 3 options or option 82 present or a value > 255 bytes.",
-        technique="wire-format validator and independent reference decoder applied to every encoding produced by the real encoder; byte-equality monitor across repeated encodings and all construction orders",
+        technique="wire-format validator and independent reference decoder applied to every encoding produced by the real encoder; byte-equality monitor across repeated encodings and all construction orders; equal-contents twin with spare-capacity slices must encode to identical bytes",
         level_text="Every encoding produced is checked by a validator sharing no code with the library (length floor, cookie, ascending order with 82 last, adjacency and 255-byte splits, "
                    "single End, zero padding) and re-read by the reference decoder against the generator's record; equal contents must give identical bytes over all enumerated construction orders.",
         level_note="Trusts harness/ref4.Validate and ref4.Decode.",
@@ -50,7 +50,7 @@ CHECKS = {
         rule="for each of the 30 typed accessors of *DHCPv4 (method set checked by reflection; unmodelled ones are listed) and EVERY raw value length 0..64: fills {zeros, 0xFF, counting, small values} "
              "+ 200 (quick) / 5000 (thorough) random fills + structure-aware values (routes, relay sub-options, user classes, VIVC entries, compressed names, truncated forms), placed directly in Options and "
              "via encode->decode; plus the reverse direction constructor -> UpdateOption -> accessor (also after a wire trip). Shape = (accessor, length, placement, well-formed|default); non-trivial iff length > 0.",
-        technique="per-accessor reference interpreter (written from RFC 2132/3442/3004/3925/3397/3046/4578/8925) evaluated online against the real accessors over exhaustive lengths and generated contents",
+        technique="per-accessor reference interpreter (written from RFC 2132/3442/3004/3925/3397/3046/4578/8925) evaluated online against the real accessors over exhaustive lengths and generated contents; history mode (option read, result overwritten by the caller, raw value edited in place, read again)",
         level_text="Each accessor result is compared with an independent interpretation of the raw bytes; every off-by-one length of each fixed-size type is hit because all lengths 0..64 are enumerated.",
         level_note="Trusts the reference interpreters in harness/c17 and harness/reflabel; relay-agent values containing sub-option codes 0/255 and gray-zone compression pointers are unjudged (counted).",
         assumptions=["a non-nil empty slice planted in Options is exercised for crash-freedom only (the decoder never produces it)"],
@@ -63,7 +63,7 @@ CHECKS = {
              "present empty or absent), one of the 6 exported builders, and 0..4 user modifiers drawn from all 24 exported With* functions (list cross-checked against a source scan of /repo/dhcpv4 at "
              "check time), including ones colliding with a default. Shape = (builder, input source, opcode class, presence of 82/61/54/55, sorted modifier names); non-trivial iff a modifier is used or "
              "option 82/61 carries a value.",
-        technique="field-level reference model of the builders' documented defaults and of every With* modifier, evaluated online against the real builders (model-based runtime monitor)",
+        technique="field-level reference model of the builders' documented defaults and of every With* modifier, evaluated online against the real builders (model-based runtime monitor); modifier lists re-used across builders, inputs and earlier results re-read after later builds",
         level_text="(1) the build without user modifiers is checked against the fields the statement names (flipped opcode, xid, htype, chaddr, flags, giaddr, byte-exact echo/omission of options 82 and 61, "
                    "option 50/54/xid for request-from-offer, type/ciaddr/unicast/PRL for renew, release, inform, discover); (2) the build with user modifiers must equal the model's 'defaults, then the "
                    "user modifiers in order' on every field and option.",
@@ -77,7 +77,7 @@ CHECKS = {
              "ParseOption(code,nil) over all 65536 codes) plus unknown codes; nested IA_NA/IA_TA/IA_PD with addresses, prefixes, status codes; vendor options; NTP sub-options; relay-msg; embedded DHCPv4; "
              "4RD rules; addresses from classes {::, v4-mapped, link-local, multicast, v4-compatible, random}; all DUID kinds. Shape = sorted set of kind paths (e.g. relay/relaymsg/msg/iana/iaaddr/status); "
              "non-trivial iff >= 2 distinct typed option kinds or nesting depth >= 3.",
-        technique="generated round trips through the real encoder/decoder compared on a neutral value tree with the generator's record (oracle A) and with an independent RFC 8415 reference decoder applied to the emitted bytes (oracle B)",
+        technique="generated round trips through the real encoder/decoder compared on a neutral value tree with the generator's record (oracle A) and with an independent RFC 8415 reference decoder applied to the emitted bytes (oracle B); cut-off copies decoded before each round trip; decoded results overwritten after judging",
         level_text="Every generated value is encoded and decoded by the real library; the decoded value (projected by reflection onto a neutral tree) must equal the tree the generator built, and the emitted "
                    "bytes must be read by an independently written decoder as exactly that tree, so symmetric encode/decode errors are visible. Evidence lists per-code hit counts; a typed code without generator would be listed as reduced_oracle.",
         level_note="Trusts harness/ref6 + reflabel + ref4 (reference decoders), harness/proj (reflection projection) and the generator's record.",
@@ -91,7 +91,7 @@ CHECKS = {
              "option length field (offsets reported by the reference parser) of generated valid messages containing every typed option, (c) structure-aware mutants <= 4096 bytes, (d) ParseOption directly for every "
              "typed code x every payload length 0..64 x {zeros, ones, counting, small values, random, valid payload cut/padded}. Shape = reject reason class, or the set of kind paths of the accepted tree; "
              "non-trivial iff the tree holds a typed option or the reject is caused by an inner layout rule.",
-        technique="differential monitor: real dhcpv6.FromBytes/ParseOption vs an independent three-valued RFC 8415 reference decoder (accept/reject agreement + value-tree equality), exhaustive small scope + perturbation + mutation",
+        technique="differential monitor: real dhcpv6.FromBytes/ParseOption vs an independent three-valued RFC 8415 reference decoder (accept/reject agreement + value-tree equality), exhaustive small scope + perturbation + mutation; relay depth sweep, name-length boundary and far-pointer families; decoded results overwritten after judging",
         level_text="Accept/reject and every decoded field (neutral value tree) of the real decoder are compared with an independently written reference decoder; gray zones of the RFCs (reserved label types, "
                    "forward pointers, compression inside DHCPv6 names, empty DNS list, vendor class without items, over-long DUIDs, partial names outside the FQDN option) answer Unspecified and are only counted.",
         level_note="Trusts harness/ref6, reflabel, ref4 (reference decoders, Appendix A/C of DESIGN.md) and harness/proj (reflection projection).",
@@ -106,7 +106,7 @@ CHECKS = {
              "hand-built non-canonical DHCPv6 encodings (duplicate ORO codes, reserved 4RD flag bits, host bits beyond a prefix, prefix length 0 with an address, out-of-range prefix lengths, compressed and partial names, "
              "maximal numeric fields, empty class items, embedded non-canonical DHCPv4, duplicate options) wrapped in 0..2 relays; generated DHCPv6 messages and their structure-aware mutants. "
              "Shape = (v4 option-area shape | v6 set of kind paths | gray-zone reason) + flag 'input differs from its re-encoding'; non-trivial iff the input is non-canonical or nests >= 3 levels.",
-        technique="online fixpoint monitor on the real codec (b -> decode -> encode -> decode -> encode) plus an independent reference decoder comparing the RFC reading of the original and the re-encoded bytes",
+        technique="online fixpoint monitor on the real codec (b -> decode -> encode -> decode -> encode) plus an independent reference decoder comparing the RFC reading of the original and the re-encoded bytes; second stage: the same monitor driven from 16 goroutines at once, each on values of its own",
         level_text="For each accepted b: the re-encoding must decode, to an equal message (neutral tree; only the allowed v4 name cut applied), and must re-encode to identical bytes; when the reference decoder "
                    "accepts b, its reading of b and of the re-encoding must be the same tree (the tree already erases exactly the allowed differences: v4 option order/padding/splitting, duplicate ORO codes, "
                    "reserved 4RD bits, address bits beyond a prefix length), so a self-consistent but meaning-changing re-encoding is caught.",
@@ -120,7 +120,7 @@ CHECKS = {
              "with addresses from realistic classes and any subset of interface-id / remote-id (+ unrelated options) per level; every check is made on the built chain and again after ToBytes/FromBytes; "
              "(b) builder cases: messages of every type 1..14 (and arbitrary type octets) with every subset of those options, 1/3 of them after a wire trip. Shape = (depth, #interface-ids, #remote-ids, inner options) "
              "resp. (message type, option subset, via wire); non-trivial iff depth >= 2 resp. a defined message type.",
-        technique="reference model of the relay/builder contracts evaluated online on the real builders' results (neutral-tree equality per level), also after a wire round trip",
+        technique="reference model of the relay/builder contracts evaluated online on the real builders' results (neutral-tree equality per level), also after a wire round trip; arbitrary hop counts, untyped carriers of echoed options, inputs re-read after every builder, inner payload swapped and all lookups repeated",
         level_text="Decapsulate(Encapsulate(m)) == m, hop count = level index, GetInnerMessage/GetTransactionID/DecapsulateRelayIndex(-1, 0..depth-1) find the right node at every depth; relay-reply from relay-forward: "
                    "same depth, RELAY-REPL at each level, link/peer equal level by level, interface-id and remote-id echoed at the same level, the given reply innermost; advertise/request/reply builders: type, xid kept, "
                    "client-id/server-id/IA_NA/IA_PD echoed (tree equality), rapid-commit carried; wrong type / missing option / nil input must yield an error and no value.",
@@ -134,7 +134,7 @@ CHECKS = {
              "encode -> decode and comparison of the bytes with the RFC 1035 encoding; (c) mutated encodings <= 512 bytes with inserted backward/forward/self/chained pointers, pointer fans, over-long names, truncations, "
              "reserved label types, trailing partial names; (d) parsed sets (plain and compressed) with every kind of single edit (replace in place, append, delete, reorder, edit one name, replace the slice). "
              "Shape = (verdict class, #names, #pointers, partial, root present, size class) / edit kind; non-trivial iff >= 2 names, a pointer, a partial name, a malformed reason or an edit.",
-        technique="differential monitor against an independent three-valued RFC 1035/4704 name decoder + encode/decode/edit round-trip oracles on the real rfc1035label package",
+        technique="differential monitor against an independent three-valued RFC 1035/4704 name decoder + encode/decode/edit round-trip oracles on the real rfc1035label package; earlier encodings held and compared after later encodes; hand-built sets read and then edited in place",
         level_text="Reference says Names => the library must accept with exactly those names and an unmodified parsed set must re-encode to exactly the parsed bytes; reference says Malformed (label overrun, truncated "
                    "pointer, name > 255 octets) => the library must fail; gray zones (reserved label types, forward/self/mid-label pointers, pointer chains) are unjudged and counted. After an edit the encoding must decode, by the reference, to the edited names.",
         level_note="Trusts harness/reflabel (DESIGN.md Appendix C).",
@@ -149,7 +149,7 @@ CHECKS = {
              "{valid, IHL 6..15 with options, trailing link padding, total length shorter than the frame, longer than the frame, IP payload shorter than a UDP header, non-IPv4 versions, non-UDP protocols, "
              "truncated at a random offset, other port, IHL < 5, other address} with bound address set or unset, ending in a scripted read error; gray-zone frames (UDP length disagreeing, fragments, bad checksums) "
              "are fed in separate sequences for crash-freedom only. Shape = (length parity, length class, pattern, bound-address flag) / the sequence of frame classes; non-trivial iff payload non-empty / >= 2 frames.",
-        technique="independent RFC 791/768/1071 frame validator applied to every frame written through the real BroadcastRawUDPConn, and a reference reader predicting the exact ReadFrom result sequence for scripted frame sequences",
+        technique="independent RFC 791/768/1071 frame validator applied to every frame written through the real BroadcastRawUDPConn, and a reference reader predicting the exact ReadFrom result sequence for scripted frame sequences; write sequences on one connection through one destination object and payload buffer changed in place; passing read faults between frames; returned addresses re-read after later reads",
         level_text="Every emitted frame is validated field by field incl. both checksums by code sharing nothing with the library; for reads the reference yields the expected (payload bounded by total length, source) "
                    "sequence and the terminating error, and the real ReadFrom results must equal it in order.",
         level_note="Trusts harness/refframe. A transmitted UDP checksum of 0 is accepted only in the RFC 768 corner where the computed checksum is itself 0 (counted as udp_checksum_zero_edge). Zero-length reads are not frames and are not generated.",
@@ -171,7 +171,7 @@ CHECKS = {
              "(nested relays, nested IA, option floods, repeated v4 options, pointer fans, item floods). On every accepted value <= 4096 bytes: every exported non-mutating method reachable by a reflective walk (depth <= 4, "
              "arguments synthesised: none, Duration, option codes, indent, enterprise numbers, nil decoder) plus builders, relay operations, MAC extraction, ztpv4/ztpv6/netboot extractors, and netboot conversations over "
              "all sequences of 0..4 messages drawn from the 3 most recently decoded ones. Shape = (entry point, accept|error class, option codes / kinds); non-trivial iff accepted or the error is not 'buffer too short'.",
-        technique="crash monitor: recover() around every entry point and observer call + child process per shard with the current input kept in a MAP_SHARED record (attributes fatal errors) + in-process termination watchdog with solo re-run; second stage under -race (checkptr)",
+        technique="crash monitor: recover() around every entry point and observer call + child process per shard with the current input kept in a MAP_SHARED record (attributes fatal errors) + in-process termination watchdog with solo re-run; second stage under -race (checkptr); concurrent stages (16 goroutines on values of their own, plain and under -race; races on runtime maps inside the library are violations)",
         level_text="Any panic, fatal error, abnormal child exit or non-termination is a violation keyed by the first library frame of the stack; evidence reports the number of observer invocations and distinct (type, method) pairs called.",
         level_note="Go's memory safety turns out-of-bounds accesses into the panics monitored here; the -race stage adds checkptr. Pretty-printing is only exercised on inputs <= 4096 bytes, as the property says.",
         assumptions=["methods named Set*/Add*/Update*/Del*/Delete*/FromBytes/Unmarshal/Marshal are mutators and not called", "interfaces/netlink/socket functions are outside the statement"],
@@ -184,7 +184,7 @@ CHECKS = {
              "partial, nested in IA, inside relays), generated and non-canonical DHCPv4 packets; each followed by the overwrite patterns {all-zero, all-0xFF, 0x05, 0x3F, 0x01 (small lengths), seeded random, next packet of "
              "the batch} on the source buffer, 64 extra random patterns on the exact byte range a poison fault touched, and inversion of every byte of the slice returned by ToBytes. Shape = family + kind set / option codes; "
              "non-trivial iff the message holds a name-bearing, nested or variable-length option.",
-        technique="page-protection poison sanitizer (decode from an mmap copy, mprotect PROT_NONE, run all observers with SetPanicOnFault) to find stale reads + scribble differential of full observer snapshots before/after overwriting the source and output buffers to decide",
+        technique="page-protection poison sanitizer (decode from an mmap copy, mprotect PROT_NONE, run all observers with SetPanicOnFault) to find stale reads + scribble differential of full observer snapshots before/after overwriting the source and output buffers to decide; live-encodings monitor (results of ToBytes held while the same and other messages are encoded again, written into, compared)",
         level_text="Snapshot S0 = results of every reflectively reachable read-only method (incl. ToBytes, Summary, String, accessors; exported fields only) + builders/helpers; after each overwrite pattern the snapshot must be "
                    "identical. A poison fault localises the aliasing reader (stack + input offset); it becomes a violation only when a pattern makes an observable difference, otherwise it is counted as a suspect.",
         level_note="Only API-observable state is compared (unexported fields are not rendered). Option-level ToBytes of byte-slice options returns the option's own slice by design; the output clause is checked at message level.",
@@ -225,7 +225,7 @@ CHECKS = {
         stages=[dict(name="sched", shards={"quick": 8, "thorough": 16}, timeout={"quick": 900, "thorough": 3600})],
         rule="full grid, both clients (real nclient4/nclient6 over a scripted PacketConn inside testing/synctest bubbles): T in {1ms,10ms,250ms,5s} (+ {3ns,7ms,100ms,1s,64s} thorough) x n in {-1,0,1..6} x request size "
              "variants x 3 destinations x caller context with/without a far deadline x {silence | response accepted in try k < n at offset {start, middle, last ns} of that try}. Shape = the scenario tuple; non-trivial iff n != 1 or a response is accepted.",
-        technique="virtual-time execution (testing/synctest) of the real clients against a scripted PacketConn that records (virtual instant, destination, bytes) of every WriteTo; exact-instant oracle",
+        technique="virtual-time execution (testing/synctest) of the real clients against a scripted PacketConn that records (virtual instant, destination, bytes) of every WriteTo; exact-instant oracle; sequences of calls on one client (also re-submitting one request object edited in place)",
         level_text="With no acceptable response: exactly n transmissions at offsets T*(2^k-1), each byte-identical to request.ToBytes() taken before the call, to the requested destination, and the no-response error at exactly "
                    "T*(2^n-1); n = -1: the first 10 transmissions on schedule, then cancellation yields ctx.Err(); a response accepted in try k returns at that very instant and no transmission follows during the next 4*T*2^n.",
         level_note="Instants are exact because time is virtual (synctest); a blocked goroutine left in the bubble or a deadlock fails the scenario. Trusts testing/synctest of go1.26.8.",
@@ -241,7 +241,7 @@ CHECKS = {
              "budget; burst of bufferCap+3 rejected datagrams at ta; mixture of rejected/wrong-xid/undecodable/empty datagrams; rejected stream + acceptable response} x event {none; ctx cancel, ctx deadline, Close, Close twice at "
              "instant tc} with ta, tc on {1ns, T/3, T-1ns, T+1ns, 2.5T, budget-1ns, budget+T} (quick: a deterministic third of the traffic x event products). "
              "(stress, real time, -race) histories of 8 caller goroutines + a feeder + Close racing them, jitter at conn and cancel.gap hook points. Shape = scenario tuple with instants classed {try0, later, after} / order hash of the history.",
-        technique="virtual-time execution (testing/synctest) of the real clients with exact return-instant oracle and bubble-exit goroutine check; real-time -race stress histories with completion/leak checker",
+        technique="virtual-time execution (testing/synctest) of the real clients with exact return-instant oracle and bubble-exit goroutine check; real-time -race stress histories with completion/leak checker; follow-up call per scenario, conn.Close errors, failing writes with bursts routed meanwhile, slow-matcher bursts",
         level_text="Grid: the call returns exactly at min(arrival of an acceptable response, context end, Close, T*(2^n-1)) with the matching result (response / ctx.Err() / no-response error), never later; an immediate "
                    "second call with the same transaction id is not refused; Close and a second Close return nil; the synctest bubble only exits when every client goroutine has finished (a deadlock is reported). "
                    "Stress: every call returns, errors are from the allowed set, no (nil, nil), no client goroutine survives Close, zero race reports.",
@@ -259,7 +259,7 @@ CHECKS = {
              "after every step makes the execution deterministic and it is compared EXACTLY (result kind, returned datagram, return instant, transmission count) with a sequential model. 2/5 of the scripts open the "
              "cancel gap through the verif hook (virtual sleep between 'stop listening' and 'unregister') and are judged by invariants only. (stress, real time, -race) histories of 8 callers, few ids, a feeder "
              "pushing mixed datagram streams, blocking matchers, jitter at conn and hook points, one deliberately held transaction id. Shape = script skeleton / order hash of the observed history; non-trivial iff >= 2 calls overlap or an id collides.",
-        technique="virtual-time deterministic replay of the real clients against a sequential model (exact equality), hook-driven gap scenarios with invariant oracle, and offline history checker with unique nonces over -race stress histories",
+        technique="virtual-time deterministic replay of the real clients against a sequential model (exact equality), hook-driven gap scenarios with invariant oracle, and offline history checker with unique nonces over -race stress histories; slow-matcher burst scenarios (buffer full, receive loop waiting); returned messages re-read after later traffic",
         level_text="Model: per call the result (own-transaction datagram that is first acceptable in arrival order / no-response / ctx error / id-in-use), its instant and the number of transmissions must equal the model's. "
                    "History checker: a returned datagram was injected, has the call's id, passes the v4 opcode/hardware-address filters, is accepted by the call's matcher (re-evaluated), its routing interval overlaps the "
                    "call, is returned by one call only, is the first acceptable one after the call's transmission (single-try calls); a call living entirely inside another call's pending window with the same id is refused; "
